@@ -91,6 +91,14 @@ Proof.
   unfold euler. f_equal. apply map_ext. intros a. apply radians_spec.
 Qed.
 
+(* np.radians multiplies by the binary64 value of pi, the model by PI: whatever constant k stands in for PI, the angle
+   handed to cos/sin differs from the exact one by exactly |a| |k - PI| / 180 *)
+Lemma deg_angle_gap a k : Rabs (a * k / 180 - a * PI / 180) = Rabs a * Rabs (k - PI) / 180.
+Proof.
+  replace (a * k / 180 - a * PI / 180) with (a * (k - PI) * / 180) by (unfold Rdiv; ring).
+  rewrite !Rabs_mult. rewrite (Rabs_right (/ 180)) by lra. unfold Rdiv. ring.
+Qed.
+
 (* ---------------- rotation_from_up_and_look ---------------- *)
 Lemma up_look_rejects_zero_up look : rotation_from_up_and_look ROps (V3 0 0 0) look = Raise ValueError.
 Proof.
